@@ -252,8 +252,8 @@ class Application(ApplicationPartDelete, ApplicationPartHead,
         path = pathutils.sanitize_path(unsafe_path)
         logger.debug("Sanitized path: %r", path)
         if (reverse_proxy is True) and (len(base_prefix) > 0):
-            if path.startswith(base_prefix):
-                path_new = path.removeprefix(base_prefix)
+            if (path + "/").startswith(base_prefix + "/"):
+                path_new = path[len(base_prefix):] or "/"
                 logger.debug("Called by reverse proxy, remove base prefix %r from path: %r => %r", base_prefix, path, path_new)
                 path = path_new
             else:
